@@ -8,7 +8,7 @@
     STEP  {"label":s,"deps":[s..],"inputs":E?,"skipIf":E?,"forEach":{"itemIn":E,"inputKey":s}?,
            "logic":{"ref":T} | {"switch":{"on":E,"cases":[[s,T]..],"default":T?}},"state":E?,"cond":[type,name]?}
     T     {"fn":id} | {"wf":name}
-    E     {"lit":V} | {"path":[root,k..]} | {"map":[[k,E]..]} | {"list":[E..]} | {"bad":true}
+    E     {"lit":V} | {"path":[root,k..]} | {"map":[[k,E]..]} | {"list":[E..]} | {"call":f,"args":[E..]} | {"bad":true}
     FN    {"c":"ok"|"skip"|"depSkip"|"retry"|"permFail","d":int?,"by":key?,
            "rf":{"prefix":s,"nameKey":s?,"calls":[s..],"pre":bool}?,"noret":bool?,"res":bool?}
           c=ok answers {"site":id,"got":inputs}; "by":key takes the class from inputs[key] instead
@@ -35,6 +35,8 @@ def optField (j : J) (k : String) : Option J :=
 partial def toExpr (j : J) : Except String Expr := do
   if let some (.arr xs) := j.get? "list" then
     return .listE (← xs.mapM toExpr)
+  if let some (.str f) := j.get? "call" then
+    return .callE f (← (← j.getArr "args").mapM toExpr)
   match j.get? "lit", j.get? "path", j.get? "map", j.get? "bad" with
   | some v, _, _, _ => pure (.lit (← toJVal v))
   | _, some (.arr (.str r :: ks)), _, _ =>
